@@ -284,16 +284,19 @@ func GenDAG(rng *rand.Rand, cfg GenCfg) *Universe {
 			n = u.AddImage(KDockerManifest, pick(blobs), layers, -1, "", ann)
 			images = append(images, n.ID)
 		case r < 8:
-			n = u.AddIndex(KOCIIndex, pickSome(manifests, 3, true), subject, at, ann)
+			ms := pickSome(manifests, 3, true)
+			if cfg.Alias && len(ms) > 0 && rng.Intn(2) == 0 {
+				// the same bytes listed under a second media type, before the manifest itself
+				a := u.AddAlias(ms[0])
+				ms = append([]int{a.ID}, ms...)
+			}
+			n = u.AddIndex(KOCIIndex, ms, subject, at, ann)
 		case r < 9:
 			n = u.AddIndex(KDockerList, pickSome(manifests, 3, false), -1, "", ann)
 		default:
 			n = u.AddArtifact(pickSome(blobs, 3, true), subject, at, ann)
 		}
 		manifests = append(manifests, n.ID)
-	}
-	if cfg.Alias && len(manifests) > 0 && rng.Intn(2) == 0 {
-		u.AddAlias(pick(manifests))
 	}
 	return u
 }
